@@ -94,8 +94,13 @@ class AsyncContext(object):
         if is_asyncio_mode():
             self.pause()
         else:
-            leave_context(self, self._active_task)
-            self.pause()
+            active_task = self._active_task
+            leave_context(self, active_task)
+            # If the scheduler has already paused this task's contexts (the task is suspended
+            # and its generator is being closed, e.g. because pausing one of its contexts
+            # failed), pausing again would break the resume/pause alternation.
+            if active_task is None or active_task._contexts_active:
+                self.pause()
             del self._active_task
 
     def resume(self):
